@@ -269,7 +269,13 @@ def bounded_small_alphabet(reg, tier, seed):
         ok = True
         why = ""
         try:
-            c = bytes(S.zero_code_compress(x))
+            c_obj = S.zero_code_compress(x)
+            c = bytes(c_obj)
+            prev = check.__dict__.get("prev")
+            if prev is not None and bytes(prev[0]) != prev[1] and len(failures) < 5:
+                failures.append({"key": "zero-coding/bounded", "clause": "the value an earlier compress call returned changed when compress was called again",
+                                 "input": x.hex()[:120], "observed": bytes(prev[0]).hex()[:80]})
+            check.prev = (c_obj, c)
         except Exception as ex:  # noqa
             if len(failures) < 5:
                 failures.append({"key": "zero-coding/bounded", "clause": f"compress refused a byte string ({type(ex).__name__}: {ex}): the code is total",
@@ -359,6 +365,18 @@ def bounded_header_peek(reg, tier, seed):
             "rule": "seeded random bodies x offsets; distinct = distinct (offset, body)", "bounded": True,
             "bounds": {"cases": evals}, "samples": [{"offset": o, "body": b.hex()[:40]} for o, b in list(seen)[:2]],
             "failures": failures}
+
+
+_register_core = register
+
+
+def register(reg):
+    _register_core(reg)
+    # the zero-coded header peek (contract shared with C01 / C02): the window handed to zero_code_expand covers what is read from
+    # its expansion - message number and extra field, two encoded bytes per decoded byte at most - or everything that is left
+    from contracts import udp_common
+    udp_common.reg_parse_header(reg, "C02")
+    reg.fns["hippolyzer.lib.base.message.udpdeserializer:UDPMessageDeserializer._parse_message_header@zerocoded"].also.append(PID)
 
 
 BOUNDED = [bounded_small_alphabet, bounded_header_peek]
